@@ -8,12 +8,14 @@ CONSTANTS
   MaxBatch = 0
   MaxCancel = 0
   MaxDue = 0
+  MaxSlow = 0
   MaxSendFail = 0
   SendHops = 4
   SkipDoneFutures = TRUE
   GuardSetException = TRUE
   AllFieldMatchers = TRUE
   TicketBeforeRegister = TRUE
+  LiveListAtCompletion = TRUE
 CONSTRAINT OnlyMatching
 CONSTRAINT FirstMatching
 CONSTRAINT AllAnsweredCompleted
